@@ -197,6 +197,8 @@ def judge_declarative(case, ctx, prefix):
         gnd['direction'] = rng.choice(dirs)                      # a ground symbol is routinely turned (it has a direction but no length)
     els.append(gnd)
     desc = {'unit': unit, 'elements': els}
+    if unit == 7 and rng.random() < 0.6:
+        del desc['unit']                                         # 'unit' is optional, its default is 7 - with and without an axes
     ctx.evaluated(repr((sorted(e['type'] for e in els), sorted(e.get('direction', '') for e in els), sum('place_after' in e for e in els), sum('length' in e for e in els))), True)
     ctx.count('declarative_lists')
     ctx.sample({'declarative': [{k: ([v.real, v.imag] if isinstance(v, complex) else v) for k, v in e.items()} for e in els], 'unit': unit})
